@@ -231,8 +231,21 @@ func (e *engineA) finish() error {
 	extFactor := int64(e.cfg.paramInt("ext", 4))
 	state := "not-converged"
 	var why string
+	revived := map[uint64]int{}
 	for {
 		el := atomic.LoadInt64(&e.ticks) - start
+		// the operator keeps the members' processes running: a node that exited
+		// on its own (e.g. it learnt of a removal that a later configuration
+		// has undone) is started again
+		for _, id := range e.cl.nodeIDs() {
+			n := e.cl.node(id)
+			if atomic.LoadInt32(&n.exited) != 0 && !n.crashed && !n.stopped && revived[id] < 3 {
+				revived[id]++
+				if _, err := e.cl.start(id, n.dir); err != nil {
+					e.rc.emit(&ev.Rec{K: "restart-failed", Cid: e.cl.cid, Nid: id, Err: err.Error()})
+				}
+			}
+		}
 		ok, w := e.converged()
 		why = w
 		if ok {
